@@ -208,7 +208,7 @@ theorem pc_newForFragment (opts : Opts) (d : Dom) (ctx : Id) (form : Option Id)
   rintro _ s2 c2 he2 ⟨a, -, -, -, -, -, htr1⟩
   refine pc_conseq (pc_resetAndSetMode htr1.1) ?_
   rintro _ s3 c3 he3 ⟨-, htr2⟩
-  obtain ⟨hm3, hc3, hext3, ids, f⟩ := htr1.trans htr2
+  obtain ⟨hm3, hc3, hext3, ids, _, f⟩ := htr1.trans htr2
   have hcfg3 : cfgOf s3 = fragCfg opts D ctx := hc3
   have hcfgd : fragCfg opts D ctx = fragCfg opts d ctx := by
     unfold fragCfg; rw [elemOf_ext hextD hctx, ipOfDom_ext hextD hctx]
@@ -252,7 +252,9 @@ def FragAgrees (opts : Opts) (d : Dom) (ctx : Id) (form : Option Id) (toks : Lis
     -- with the nodes `ids` the sink handed out (and any further supply `rest`), the specification's fragment
     -- run over the same tokens succeeds for every sufficient amount of reprocessing fuel, …
     (∃ F, ∀ fuel, F ≤ fuel →
-      parseFragmentDev (fragCfg opts d ctx) fuel (dmode opts.quirksMode) form (ids ++ rest) (specToks toks) = .ok σ) ∧
+      parseFragmentDev (fragCfg opts d ctx) fuel (dmode opts.quirksMode) form (ids ++ rest) (specToks toks) = .ok σ ∧
+      -- (the UNMODIFIED specification: the Assert of "in cell" never fails)
+      Spec.TreeModes.parseFragment (fragCfg opts d ctx) fuel (dmode opts.quirksMode) form (ids ++ rest) (specToks toks) = .ok σ) ∧
     σ.p.supply = rest ∧
     -- … makes the same DOM operations in the same order (text insertions compared character by character) …
     (∀ tc, TcOk s'.dom tc → flatCalls (edits2 calls) = flatCalls (σ.fullLog.map (opCall tc))) ∧
@@ -272,19 +274,28 @@ theorem fragAgrees_of_sims (hmode : ∀ m, ModeSim m) (hchar : ∀ m, ModeCharSi
   refine pc_seq (pc_with_run (pc_newForFragment opts d ctx form hctx hform)) ?_
   rintro u s0 c0 he0 ⟨⟨ht0, hm0, hcfg0, -, ids0, f0⟩, hrun⟩
   unfold parseRest
-  refine pc_seq (pc_processTokens hmode hchar hfor hforc hdt toks [] s0 ht0 hm0 (hresp s0 hrun)) ?_
+  -- the state `new_for_fragment` leaves satisfies the invariant of the specification's run
+  have hinv0 : XInv s0 := by
+    intro x hx _
+    obtain ⟨x0, hx0, _, _, _, hfs, _⟩ := f0 []
+    exact good_absF_indep ht0 hx0 hx (H5V.Lemmas.ModesInv.good_fragmentState (cfgOf_edition s0) hfs).1
+  refine pc_seq (pc_processTokens hmode hchar hfor hforc hdt toks [] s0 ht0 hm0 hinv0 (hresp s0 hrun)) ?_
   rintro res s1 c1 he1 ⟨_, hm1, hc1, hext1, ids, f⟩
   refine pc_seq (PC.of_tot (tot_finishTB s1)) ?_
   rintro _ s2 c2 he2 ⟨hs2, hc2⟩
   refine pc_pure ⟨ids0 ++ ids, fun rest => ?_⟩
   obtain ⟨x0, hx0, hsup0, houts0, -, hfs, hlog0⟩ := f0 (ids ++ rest)
-  obtain ⟨x', os, _, hsup, ⟨ops, e1, k1⟩, ho, hfb, F, hF⟩ := f x0 rest hx0 hsup0
+  obtain ⟨x', os, _, hsup, ⟨ops, e1, k1⟩, ho, hfb, ⟨F, hF⟩, hstd⟩ := f x0 rest hx0 hsup0
+  obtain ⟨_, F', hF'⟩ := hstd (fun _ => (H5V.Lemmas.ModesInv.good_fragmentState (cfgOf_edition s0) hfs).1)
   have hq2 : s2.quirksMode = s1.quirksMode := by rw [hs2]
   have hm2 : s2.mode = s1.mode := by rw [hs2]
-  refine ⟨absF s1 x', ⟨F, fun fuel hfu => ?_⟩, hsup, ?_, by rw [hq2]; rfl, by rw [hm2]; rfl, ?_⟩
+  refine ⟨absF s1 x', ⟨max F F', fun fuel hfu => ⟨?_, ?_⟩⟩, hsup, ?_, by rw [hq2]; rfl, by rw [hm2]; rfl, ?_⟩
   · simp only [parseFragmentDev]
     rw [List.append_assoc, ← hcfg0, hfs]
-    exact hF fuel hfu
+    exact hF fuel (by omega)
+  · simp only [Spec.TreeModes.parseFragment]
+    rw [List.append_assoc, ← hcfg0, hfs]
+    exact hF' fuel (by omega)
   · intro tc htc
     have ec2 : edits2 c2 = [] := by rw [← edits2_edits, hc2]; rfl
     rw [absF_fullLog, e1, List.map_append, flatCalls_append, List.append_nil, edits2_append, edits2_append, ec2,
